@@ -87,6 +87,16 @@ check('C04', 'model_checking',
       'reproduced from its documented behaviour.',
       'explicit-state BFS over transactions on the real persistence hooks', 'E1+E4', 'DESIGN.md §4 C04')
 
+check('C19', 'exploration',
+      'Every (old, a, b) of an integer cube plus big-integer corners resolved through _p_resolveConflict and '
+      'end-to-end through two MiniDB connections in both commit orders (stored value must be old+a+b); plus '
+      'a BFS of all short event histories (set/change/call/getstate/pickle/copy/commit/abort/evict/reader) '
+      'of a stored Length against an integer cell with a committed shadow.',
+      'Trusted: CPython, persistent 6.8, vt.minidb. The quantifier over all integers is unbounded: only the '
+      'cube [-B,B]^3 and 13 corner values cubed are exercised - bounded exhaustive enumeration cannot do more.',
+      'exhaustive enumeration of an input cube and of both commit schedules; BFS of cell event histories',
+      'E5+E4', 'DESIGN.md §4 C19')
+
 PENDING = ['C%02d' % i for i in range(1, 20)]
 
 
